@@ -137,3 +137,38 @@ Proof.
   lia.
 Qed.
 End Flow.
+
+(* ---- v1 transactions (validateSiacoins): the values of the outputs an accepted transaction spends, as validation
+   resolves them (from the block's own earlier transactions or from the supplement), equal its new outputs, the
+   payouts of the contracts it forms, and its miner fees ---- *)
+Section FlowV1.
+Definition spent_value (m : mid) (ts : supp1) (i : sci1) : Z :=
+  match sc_element m ts (i1_parent i) with Some (p, _) => sco_value (sce_out p) | None => 0 end.
+
+Lemma in_sci1_ok s m ts l : forall acc r, in_sci1 s m ts l acc = Ok r -> r = acc + zsum (map (spent_value m ts) l).
+Proof.
+  induction l as [|i l IH]; intros acc r E; cbn [in_sci1 map zsum fold_right] in *.
+  - inversion E. lia.
+  - destruct (child s <? i1_timelock i); [discriminate|]. destruct (is_spent m (i1_parent i)); [discriminate|].
+    unfold spent_value at 1. destruct (sc_element m ts (i1_parent i)) as [[p lf]|]; [|discriminate].
+    destruct (negb (beq (i1_uh i) (sco_addr (sce_out p)))); [discriminate|]. destruct (child s <? sce_maturity p); [discriminate|].
+    apply bind_ok in E. destruct E as (a & E1 & E2). apply cadd_ok in E1. subst a. apply IH in E2. unfold zsum in E2. lia.
+Qed.
+Lemma out_fees_ok l : forall acc r, out_fees l acc = Ok r -> r = acc + zsum l.
+Proof.
+  induction l as [|f l IH]; intros acc r E; cbn [out_fees zsum fold_right] in *.
+  - inversion E. lia.
+  - destruct (C128 <=? acc + f); [discriminate|]. apply IH in E. unfold zsum in E. lia.
+Qed.
+
+Theorem v1_value_flow s m t ts : validate_siacoins s m t ts = Ok tt ->
+  zsum (map (spent_value m ts) (t1_sci t)) =
+  zsum (map (fun x => sco_value (snd x)) (t1_sco t)) + zsum (map (fun x => fc_payout (snd (fst x))) (t1_fc t)) + zsum (t1_fees t).
+Proof.
+  unfold validate_siacoins. intros E.
+  apply bind_ok in E. destruct E as (insum & E1 & E). apply bind_ok in E. destruct E as (o1 & E2 & E).
+  apply bind_ok in E. destruct E as (o2 & E3 & E). apply bind_ok in E. destruct E as (o3 & E4 & E).
+  destruct (insum =? o3) eqn:Q; [|discriminate]. apply Z.eqb_eq in Q.
+  apply in_sci1_ok in E1. apply csum_ok in E2. apply csum_ok in E3. apply out_fees_ok in E4. lia.
+Qed.
+End FlowV1.
